@@ -68,8 +68,9 @@ static bool check_zero(struct instr *instruc, unsigned long saved_imm,
   // check for signed 32bit overflow
   if (IN_RANGE(saved_imm, NEG32BIT_CHECK, MAX_UNSIGNED_32BIT) &&
       !instruc->reduced_imm && type != CONTROL_FLOW) {
-    // nasm immediate register handling disabled
-    if (!(instruc->assembly_opt & NASM))
+    // nasm immediate register handling disabled: this only concerns register
+    // destinations, a memory destination is encoded alike in every mode
+    if (!(instruc->assembly_opt & NASM) && !instruc->mem_disp)
       return true;
     // nasm immediate register handling disabled
     if (type != DATA_TRANSFER)
